@@ -12,7 +12,7 @@ open PyGql PyGql.Validate PyGql.Validate.Spec
 /-- the input-side static context shown by the stacks of `TypeInfoVisitor` -/
 def iview (t : TI) : IView := { view := t.view, inputs := t.inputStack }
 
-theorem IView.ext' {a b : IView} (h1 : a.view = b.view) (h2 : a.inputs = b.inputs) : a = b := by
+theorem IView.ext2 {a b : IView} (h1 : a.view = b.view) (h2 : a.inputs = b.inputs) : a = b := by
   cases a; cases b; simp_all
 
 theorem IView.enter_view (s : SchemaD) (n : Node) (v : IView) : (IView.enter s n v).view = View.enter s n v.view := by
@@ -44,7 +44,7 @@ theorem inputs_enter (s : SchemaD) (n : Node) (t : TI) : (tiEnter s n t).inputSt
       TI.enterFragmentDef]
 
 theorem iview_enter (s : SchemaD) (n : Node) (t : TI) : iview (tiEnter s n t) = IView.enter s n (iview t) :=
-  IView.ext' (by rw [IView.enter_view]; exact view_enter s n t) (inputs_enter s n t)
+  IView.ext2 (by rw [IView.enter_view]; exact view_enter s n t) (inputs_enter s n t)
 
 theorem parseLiteralFails_some (sc : String) (v : Value) : ∃ b, parseLiteralFails sc v = some b := by
   unfold parseLiteralFails
